@@ -23,6 +23,7 @@ partial / trusted: the IEEE-1800 semantics is OUR formalisation (nothing in the 
 """
 from common import *
 import sv_common as sv, sv_engine as eng, svparse, sv_gen
+import collections
 
 BACKEND = 'sv'
 PID = 'C03'
